@@ -109,6 +109,28 @@ def run(ctx):
     for case, rng in ctx.cases(n_mesh):
         spec = {'case': case}
         ctx.run_case(spec, one_mesh, obs, rng, case, spec, ctx)
+    # scale: one mesh with more than 46 341 nodes (node-pair keys no longer fit 32 bits), every table derived
+    case = n_mesh
+    if (ctx.only_case is None and case % ctx.nshards == ctx.shard) or ctx.only_case == case:
+        spec = {'case': case, 'large': True}
+        ctx.run_case(spec, large_mesh, obs, gen(ctx.seed, 'C10', case, 'large'), case, spec)
+
+
+def large_mesh(obs, rng, case, spec):
+    from ..model.ugrid import Mesh
+    n = 218 + int(rng.integers(0, 6))
+    node = lambda j, i: j * (n + 1) + i   # noqa: E731
+    faces = [[node(j, i), node(j, i + 1), node(j + 1, i + 1), node(j + 1, i)] for j in range(n) for i in range(n)]
+    total = (n + 1) ** 2
+    xs = numpy.array([100 + 0.01 * (k % (n + 1)) for k in range(total)])
+    ys = numpy.array([-30 + 0.01 * (k // (n + 1)) for k in range(total)])
+    mesh = Mesh(faces, xs, ys)
+    spec['mesh'] = {'faces': mesh.nface, 'nodes': mesh.nnode, 'edges': mesh.nedge}
+    obs.cls('mesh:more-than-46341-nodes')
+    enc = dict(supplied=(), declare_edge_dim=True, start_index=int(rng.integers(0, 2)), fill='none', transposed=False,
+               coord_style='var', uniform_tables=True, permute_edges=False, face_coords=False, edge_coords=True)
+    spec['encoding'] = {k: (list(v) if isinstance(v, tuple) else v) for k, v in enc.items()}
+    one_encoding(obs, rng, mesh, 'ccw', enc, case, 0)
 
 
 def encodings(ctx, rng):
